@@ -58,6 +58,19 @@ def tags_of(metadata):
     return out
 
 
+class TLog(list):
+    """Event list that also remembers the virtual time of every append (parallel list `.t`)."""
+
+    def __init__(self, clock):
+        super().__init__()
+        self.clock = clock
+        self.t = []
+
+    def append(self, ev):
+        super().append(ev)
+        self.t.append(self.clock())
+
+
 class Run:
     """One instrumented pipeline."""
 
@@ -68,13 +81,15 @@ class Run:
         self.case = case
         self.loop = loop
         self.flavour = consumer_flavour
-        self.log = []
+        self.log = TLog(self.now)
         self.nodes = []          # strong refs while "held"
         self.wr = []             # weak refs
         self.refs = {}           # ref id -> RefCounter
         self.pending = {}        # tok -> Future
         self.ntok = 0
         self.emits = []          # awaitables returned by emit (async mode)
+        self.jobs = {}           # map_async job id -> Future
+        self.njob = 0
         run = self
 
         class TRef(RefCounter):
@@ -97,6 +112,9 @@ class Run:
             self._instrument(node, i)
             self.nodes.append(node)
             self.wr.append(weakref.ref(node))
+
+    def now(self):
+        return self.loop.time() if self.loop is not None else 0
 
     # ------------------------------------------------------------ construction
     def _make(self, Stream, nd, asyn):
@@ -164,11 +182,45 @@ class Run:
             return ups[0].combine_latest(*ups[1:], **kw)
         if k == "zip_latest":
             return ups[0].zip_latest(*ups[1:])
+        if k == "buffer":
+            return ups[0].buffer(nd["n"])
+        if k == "delay":
+            return ups[0].delay(nd["interval"])
+        if k == "rate_limit":
+            return ups[0].rate_limit(nd["interval"])
+        if k == "map_async":
+            return ups[0].map_async(self._async_fn(nd, me), parallelism=nd.get("parallelism", 1))
+        if k == "timed_window":
+            return ups[0].timed_window(nd["interval"])
+        if k == "timed_window_unique":
+            return ups[0].timed_window_unique(nd["interval"], key=mk(nd["key"]), keep=nd.get("keep", "first"))
+        if k == "partition_timeout":
+            key = mk(nd["key"]) if nd.get("key") else None
+            return ups[0].partition(nd["n"], timeout=nd["timeout"], key=key)
+        if k == "latest":
+            return ups[0].latest()
+        if k == "zipmax":
+            return self.streamz.zip(*ups, maxsize=nd["maxsize"])
         if k == "sink":
             if nd.get("mode") == "async":
                 return ups[0].sink(self._consumer())
             return ups[0].sink(mk(nd["f"]))
         raise KeyError(k)
+
+    def _async_fn(self, nd, me):
+        """map_async function: the result is f(x), delivered when the harness completes the job."""
+        run = self
+        f = catalogue.make_fn(nd["f"])
+
+        async def job(x):
+            jid = run.njob
+            run.njob += 1
+            fut = run.loop.create_future()
+            run.jobs[jid] = fut
+            run.log.append(["jobstart", me, jid, canon(x), run.loop.time()])
+            await fut
+            return f(x)
+        return job
 
     def _consumer(self):
         run = self
@@ -178,7 +230,7 @@ class Run:
             run.ntok += 1
             fut = run.loop.create_future()
             run.pending[tok] = fut
-            run.log.append(["start", None, tok, canon(x)])
+            run.log.append(["start", None, tok, canon(x), run.loop.time() if run.loop else 0])
             if run.flavour == "future":
                 return fut
             if run.flavour == "coro":
@@ -240,7 +292,8 @@ class Run:
         return {"downs": downs, "ups": ups, "alive": alive}
 
     def take_log(self):
-        l, self.log = self.log, []
+        l, self.log = self.log, TLog(self.now)
+        self.last_times = l.t
         # fill in the sink id of "start" events from the preceding arrive
         last_arrive = None
         for e in l:
@@ -248,7 +301,7 @@ class Run:
                 last_arrive = e[1]
             elif e[0] == "start" and e[1] is None:
                 e[1] = last_arrive
-        return l
+        return list(l)
 
     def emit_status(self):
         out = []
@@ -289,7 +342,9 @@ class Run:
                 self.nodes[op["node"]].destroy()
             elif kind == "drop":
                 self.nodes[op["node"]] = None
-            elif kind in ("counts", "links"):
+            elif kind == "jobdone":
+                self.jobs.pop(op["job"]).set_result(None)
+            elif kind in ("counts", "links", "advance", "settle"):
                 pass
             else:
                 raise KeyError(kind)
@@ -305,6 +360,8 @@ class Run:
         if op["op"] in ("drop", "disconnect", "destroy"):
             gc.collect()
         o = {"log": self.take_log(), "err": err}
+        o["t"] = list(self.last_times)
+        o["now"] = self.now()
         if op["op"] == "counts":
             o["counts"] = self.counts(op["refs"])
         if op["op"] == "links":
@@ -322,7 +379,7 @@ class Run:
             n = w()
             if n is not None and n in sinks._global_sinks:
                 sinks._global_sinks.discard(n)
-        for f in self.pending.values():
+        for f in list(self.pending.values()) + list(self.jobs.values()):
             if not f.done():
                 f.cancel()
         self.nodes = []
